@@ -46,9 +46,14 @@ def vexpr(node, P, R, D) -> str:
 def requirements(stmts, P, R, D, guard=None):
     """list of conditions that must hold for the function to return normally"""
     out = []
-    for st in stmts:
+    for k, st in enumerate(stmts):
         if isinstance(st, ast.Expr) and isinstance(st.value, ast.Constant):
             continue
+        if isinstance(st, ast.If) and not st.orelse and len(st.body) == 1 and isinstance(st.body[0], ast.Return) and st.body[0].value is None:
+            # `if c: return` — what follows is required only when c does not hold
+            g = f"(.not {vexpr(st.test, P, R, D)})"
+            out += requirements(stmts[k + 1:], P, R, D, guard=g if guard is None else f"(.and {guard} {g})")
+            return out
         if isinstance(st, ast.Assert):
             c = vexpr(st.test, P, R, D)
         elif isinstance(st, ast.If) and len(st.body) == 1 and isinstance(st.body[0], ast.Raise) and not st.orelse:
